@@ -20,7 +20,7 @@ A scenario is a plain dict (JSON-able), see DESIGN.md section 3:
 
 Fault kinds (d = delay in ticks after the transmission):
   drop | ans d | late (answer at T+1) | garbage d | short d | badcrc d | exc code d | frag split d d2 second
-  | lone split d | dup d | dupg d | pclose d err | eof d | err d errno | foreign d | ansg d (answer then garbage)
+  | lone split d | dup d | dupx code d | ansx code d | dupg d | pclose d err | eof d | err d errno | foreign d | ansg d (answer then garbage)
   second (of frag) = exact | plus1 | minus1 | corrupt | other | none
 """
 from __future__ import annotations
@@ -176,6 +176,12 @@ class Peer:
         elif k == "gans":
             tr.deliver(GARBAGE_TCP if sc["fr"] == "tcp" else GARBAGE, d, "garbage")
             tr.deliver(ans, d, "ans")
+        elif k == "dupx":
+            tr.deliver(exception_answer(sc, data, f.get("code", 2)), d, "exc")
+            tr.deliver(exception_answer(sc, data, f.get("code", 2)), d, "exc")
+        elif k == "ansx":
+            tr.deliver(ans, d, "ans")
+            tr.deliver(exception_answer(sc, data, f.get("code", 2)), d, "exc")
         elif k in ("frag", "lone"):
             split = f.get("split", 9)
             split = max(1, min(split, len(ans) - 1))
